@@ -19,13 +19,17 @@ package frr
 import (
 	"errors"
 	"fmt"
+	"os"
+	"path/filepath"
 	"sync"
+	"sync/atomic"
 	"testing"
 	"time"
 
 	"github.com/go-kit/log"
 	"go.universe.tf/metallb/internal/bgp"
 	metallbconfig "go.universe.tf/metallb/internal/config"
+	"go.universe.tf/metallb/internal/logging"
 )
 
 const (
@@ -60,6 +64,34 @@ func (l *c19smLog) body(cfg *frrConfig) error {
 	return nil
 }
 
+// hook is the reload signal of the real-constructor mode: it reads the file the real
+// generateAndReloadConfigFile has just written, as the reloader would.
+func (l *c19smLog) hook() error {
+	b, err := os.ReadFile(c19smFilePath)
+	l.mu.Lock()
+	defer l.mu.Unlock()
+	ok := err == nil && len(l.applies) >= l.failFirst
+	l.applies = append(l.applies, c19smApply{text: string(b), ok: ok})
+	l.last = time.Now()
+	if !ok {
+		time.Sleep(2 * time.Millisecond) // a failing reload takes its time: submissions arrive meanwhile
+		return errors.New("injected reload failure")
+	}
+	return nil
+}
+
+var (
+	c19smCur      atomic.Pointer[c19smLog]
+	c19smFilePath string
+)
+
+func c19smReloadHook() error {
+	if l := c19smCur.Load(); l != nil {
+		return l.hook()
+	}
+	return nil
+}
+
 func (l *c19smLog) snap() (n int, lastOK bool, lastText string, since time.Duration) {
 	l.mu.Lock()
 	defer l.mu.Unlock()
@@ -79,11 +111,12 @@ type c19smState struct {
 	specs []vfFRRSessSpec
 	advs  [][]*bgp.Advertisement
 	live  []bool
+	logLevel string
 }
 
 // render builds the text a fresh session manager produces for st (no debouncer involved).
 func (st *c19smState) render() (string, error) {
-	sm := &sessionManager{sessions: map[string]*session{}, bfdProfiles: []BFDProfile{}, reloadConfig: make(chan reloadEvent, 4*len(st.specs)+8)}
+	sm := &sessionManager{sessions: map[string]*session{}, bfdProfiles: []BFDProfile{}, reloadConfig: make(chan reloadEvent, 4*len(st.specs)+8), logLevel: st.logLevel}
 	l := log.NewNopLogger()
 	if st.bfd != nil {
 		if err := sm.SyncBFDProfiles(st.bfd); err != nil {
@@ -157,42 +190,92 @@ func c19smScenario(c *vfCase, can *vfCanary) {
 		}
 	}
 	lg := &c19smLog{failFirst: vfPick(r, []int{0, 0, 1, 2})}
-	sm := &sessionManager{sessions: map[string]*session{}, bfdProfiles: []BFDProfile{}, reloadConfig: make(chan reloadEvent)}
-	debouncer(lg.body, sm.reloadConfig, c19smDebounce, c19smRetry, log.NewNopLogger())
-	defer close(sm.reloadConfig)
-	st := &c19smState{}
+	var sm *sessionManager
+	realCtor := c.Idx%2 == 1
+	if realCtor {
+		// the package's own constructor: its reload closure, generateAndReloadConfigFile writing a real
+		// file, the reload signal replaced by a reader of that file
+		c19smCur.Store(lg)
+		defer c19smCur.Store(nil)
+		sm = mockNewSessionManager(log.NewNopLogger(), logging.LevelInfo)
+		c.Count("sm-scenarios-with-the-real-constructor")
+	} else {
+		sm = &sessionManager{sessions: map[string]*session{}, bfdProfiles: []BFDProfile{}, reloadConfig: make(chan reloadEvent)}
+		debouncer(lg.body, sm.reloadConfig, c19smDebounce, c19smRetry, log.NewNopLogger())
+	}
+	blocked := false
+	defer func() {
+		if !blocked {
+			close(sm.reloadConfig)
+		}
+	}()
+	// call runs one submission with a watchdog: submitters must never be blocked for good
+	call := func(what string, f func() error) (error, bool) {
+		done := make(chan error, 1)
+		go func() { done <- f() }()
+		select {
+		case err := <-done:
+			return err, true
+		case <-time.After(20 * time.Second):
+			blocked = true
+			if can.MaxGap() > 40*time.Millisecond {
+				c.Inconclusive("session-manager scenario: " + what + " did not return within 20 s, but the process was starved")
+			} else {
+				c.Violation("sm:submitter-blocked", what+" did not return within 20 s: the submitter (the speaker's event handler, holding the session manager's lock) is blocked for good", map[string]any{"trace_tail": c.Trace()})
+			}
+			return nil, false
+		}
+	}
+	st := &c19smState{logLevel: sm.logLevel}
 	l := log.NewNopLogger()
 	var sessions []bgp.Session
 	starved := func() bool { return can.MaxGap() > 40*time.Millisecond }
 
-	// waitIdle: true when the recorder saw no apply for c19smQuiet and its last apply succeeded
-	waitIdle := func(what string) bool {
+	// settle waits, on a logical criterion, for what the submissions so far call for: when the state
+	// renders to another text than the one applied last, a successful apply of exactly that text must
+	// show up (bounded by c19smGiveUp, judged only with a clean canary); then c19smQuiet without a
+	// further apply. Returns the number of applies and whether the scenario may go on.
+	settle := func(what string, want string) (int, bool) {
 		t0 := time.Now()
 		for {
-			n, ok, _, since := lg.snap()
-			if (n == 0 || ok) && since >= c19smQuiet && time.Since(t0) >= c19smQuiet {
-				return true
+			n, ok, text, since := lg.snap()
+			reached := n > 0 && ok && text == want
+			if n == 0 && want == "" {
+				reached = true
+			}
+			if reached && since >= c19smQuiet && time.Since(t0) >= c19smQuiet {
+				return n, true
 			}
 			if time.Since(t0) > c19smGiveUp {
-				if starved() {
+				switch {
+				case starved():
 					c.Inconclusive("session-manager scenario: the process was starved while waiting after " + what)
-				} else if n > 0 && !ok {
+				case n > 0 && !ok:
 					c.Violation("sm:failed-apply-not-retried", fmt.Sprintf("after %s the last reload attempt (#%d) failed and no further attempt followed within %s", what, n, c19smGiveUp), map[string]any{"trace_tail": c.Trace()})
-				} else {
+				case !reached:
+					c.Violation("sm:last-applied-differs-from-submitted-state", fmt.Sprintf("%s after %s (%d applies) the configuration applied last is still not the one the submitted state renders to: %s", c19smGiveUp, what, n, c14FirstDiff(text, want)), map[string]any{"op": what})
+				default:
 					c.Inconclusive("session-manager scenario: applies kept coming for " + c19smGiveUp.String() + " after " + what)
 				}
-				return false
+				return n, false
 			}
 			time.Sleep(c19smDebounce)
 		}
 	}
+	applied := "" // the text the recorder applied last at the previous idle point
 	check := func(what string, identical bool, before int) bool {
-		if !waitIdle(what) {
+		want, err := st.render()
+		if err != nil {
+			c.Logf("fresh render failed: %v", err)
 			return false
 		}
-		n, ok, text, _ := lg.snap()
+		n, ok := settle(what, want)
+		if !ok {
+			return false
+		}
 		c.Eval()
-		if identical {
+		c.Count("sm-idle-points-compared")
+		if identical && want == applied {
 			c.Count("sm-identical-resubmissions")
 			if n != before {
 				if starved() {
@@ -203,23 +286,7 @@ func c19smScenario(c *vfCase, can *vfCanary) {
 				return false
 			}
 		}
-		if n == 0 || !ok {
-			return true
-		}
-		want, err := st.render()
-		if err != nil {
-			c.Logf("fresh render failed: %v", err)
-			return true
-		}
-		c.Count("sm-idle-points-compared")
-		if want != text {
-			if starved() {
-				c.Inconclusive("starved before an idle comparison")
-				return false
-			}
-			c.Violation("sm:last-applied-differs-from-submitted-state", fmt.Sprintf("after %s (idle, %d applies) the configuration applied last is not the one the submitted state renders to: %s", what, n, c14FirstDiff(text, want)), map[string]any{"op": what})
-			return false
-		}
+		applied = want
 		return true
 	}
 
@@ -235,14 +302,21 @@ func c19smScenario(c *vfCase, can *vfCanary) {
 	if len(names) > 0 {
 		st.bfd = c19smBFD(r, names)
 		c.Logf("SyncBFDProfiles(%d profiles)", len(st.bfd))
-		if err := sm.SyncBFDProfiles(c19smCopyBFD(st.bfd)); err != nil {
+		if err, ok := call("SyncBFDProfiles", func() error { return sm.SyncBFDProfiles(c19smCopyBFD(st.bfd)) }); !ok {
+			return
+		} else if err != nil {
 			c.Logf("  -> %v", err)
 			return
 		}
 	}
+	jitter := r.Bool() // the initial submissions are spread over a few debounce intervals (they overlap reload attempts)
 	for i := range prog.Sessions {
 		sp := prog.Sessions[i]
-		s, err := sm.NewSession(l, c14Params(&sp))
+		var s bgp.Session
+		err, ok := call("NewSession", func() error { var e error; s, e = sm.NewSession(l, c14Params(&sp)); return e })
+		if !ok {
+			return
+		}
 		if err != nil {
 			c.Logf("NewSession(%s) -> %v", sp.PeerKey(), err)
 			return
@@ -256,7 +330,12 @@ func c19smScenario(c *vfCase, can *vfCanary) {
 		st.live = append(st.live, true)
 		sessions = append(sessions, s)
 		c.Logf("NewSession(%s)", sp.PeerKey())
-		if err := s.Set(advs...); err != nil {
+		if jitter {
+			time.Sleep(time.Duration(r.Intn(5)) * time.Millisecond)
+		}
+		if err, ok := call("Set", func() error { return s.Set(advs...) }); !ok {
+			return
+		} else if err != nil {
 			c.Logf("Set(%s, %d advertisements) -> %v", sp.PeerKey(), len(advs), err)
 			continue
 		}
@@ -283,7 +362,9 @@ func c19smScenario(c *vfCase, can *vfCanary) {
 				cp.Communities = append(cp.Communities[:0:0], a.Communities...)
 				again[j] = &cp
 			}
-			if err := sessions[i].Set(again...); err != nil {
+			if err, ok := call(what, func() error { return sessions[i].Set(again...) }); !ok {
+				return
+			} else if err != nil {
 				c.Logf("  -> %v", err)
 				continue
 			}
@@ -295,7 +376,9 @@ func c19smScenario(c *vfCase, can *vfCanary) {
 			sub := vfSubset(r, full, 1, 2)
 			what := fmt.Sprintf("Set(%s, %d of %d advertisements)", st.specs[i].PeerKey(), len(sub), len(full))
 			c.Logf("%s", what)
-			if err := sessions[i].Set(sub...); err != nil {
+			if err, ok := call(what, func() error { return sessions[i].Set(sub...) }); !ok {
+				return
+			} else if err != nil {
 				c.Logf("  -> %v", err)
 				continue
 			}
@@ -307,7 +390,9 @@ func c19smScenario(c *vfCase, can *vfCanary) {
 			st.bfd = c19smBFD(r, names)
 			what := "SyncBFDProfiles(same names, other values)"
 			c.Logf("%s", what)
-			if err := sm.SyncBFDProfiles(c19smCopyBFD(st.bfd)); err != nil {
+			if err, ok := call(what, func() error { return sm.SyncBFDProfiles(c19smCopyBFD(st.bfd)) }); !ok {
+				return
+			} else if err != nil {
 				c.Logf("  -> %v", err)
 				continue
 			}
@@ -317,7 +402,9 @@ func c19smScenario(c *vfCase, can *vfCanary) {
 		case op < 8 && st.bfd != nil: // identical profiles
 			what := "SyncBFDProfiles(identical)"
 			c.Logf("%s", what)
-			if err := sm.SyncBFDProfiles(c19smCopyBFD(st.bfd)); err != nil {
+			if err, ok := call(what, func() error { return sm.SyncBFDProfiles(c19smCopyBFD(st.bfd)) }); !ok {
+				return
+			} else if err != nil {
 				c.Logf("  -> %v", err)
 				continue
 			}
@@ -327,7 +414,9 @@ func c19smScenario(c *vfCase, can *vfCanary) {
 		case op == 9 && st.live[i] && len(sessions) > 1: // close one
 			what := fmt.Sprintf("Close(%s)", st.specs[i].PeerKey())
 			c.Logf("%s", what)
-			if err := sessions[i].Close(); err != nil {
+			if err, ok := call(what, func() error { return sessions[i].Close() }); !ok {
+				return
+			} else if err != nil {
 				c.Logf("  -> %v", err)
 			}
 			st.live[i] = false
@@ -349,6 +438,16 @@ func TestVerif_C19SM(t *testing.T) {
 	prev := osHostname
 	osHostname = func() (string, error) { return "verifhost", nil }
 	defer func() { osHostname = prev }()
+	dir, err := os.MkdirTemp("", "verif-c19sm-")
+	if err != nil {
+		t.Fatal(err)
+	}
+	defer os.RemoveAll(dir)
+	os.Unsetenv("FRR_CONFIG_FILE")
+	c19smFilePath = filepath.Join(dir, "frr.conf")
+	configFileName = c19smFilePath
+	reloadConfig = c19smReloadHook
+	debounceTimeout, failureTimeout = c19smDebounce, c19smRetry
 	can := vfStartCanary()
 	defer can.Stop()
 	rule := "session-manager variant: the real FRR sessionManager feeds the real debouncer (3 ms debounce, 6 ms retry, first 0-2 reload attempts fail); after every operation (Set with another subset, identical Set, SyncBFDProfiles with other values / identical, Close) the recorder must go idle with the last applied text equal to what a fresh session manager renders from the submitted state, and identical re-submissions must cause no reload; non-trivial = distinct (session set, failure count, operation count)"
